@@ -507,34 +507,39 @@ fn build_filter(lhs: &AstNode, rhs: &AstNode) -> Result<Evaluator> {
   let rhe = build_evaluator(rhs)?;
   let name_item: Name = "item".into();
   Ok(Box::new(move |scope: &Scope| {
+    // evaluates the filter expression in the scope of one item: its entries (when it is a context) and `item`
+    let eval_for_item = |scope: &Scope, value: &Value| -> Value {
+      let (added_local_context, has_item_entry) = if let Value::Context(local_context) = value {
+        scope.push(local_context.clone());
+        if local_context.contains_entry(&name_item) {
+          (true, true)
+        } else {
+          (true, false)
+        }
+      } else {
+        (false, false)
+      };
+      if !has_item_entry {
+        let mut special_context = FeelContext::default();
+        special_context.set_entry(&name_item, value.clone());
+        scope.push(special_context);
+      }
+      let result = rhe(scope);
+      if !has_item_entry {
+        scope.pop();
+      }
+      if added_local_context {
+        scope.pop();
+      }
+      result
+    };
     let lhv = lhe(scope);
     match lhv {
       Value::List(values) => {
         let mut filtered_values = vec![];
         for value in values.as_vec() {
-          let (added_local_context, has_item_entry) = if let Value::Context(local_context) = &value {
-            scope.push(local_context.clone());
-            if local_context.contains_entry(&name_item) {
-              (true, true)
-            } else {
-              (true, false)
-            }
-          } else {
-            (false, false)
-          };
-          if !has_item_entry {
-            let mut special_context = FeelContext::default();
-            special_context.set_entry(&name_item, value.clone());
-            scope.push(special_context);
-          }
-          if let Value::Boolean(true) = rhe(scope) {
+          if let Value::Boolean(true) = eval_for_item(scope, value) {
             filtered_values.push(value.clone());
-          }
-          if !has_item_entry {
-            scope.pop();
-          }
-          if added_local_context {
-            scope.pop();
           }
         }
         let rhv = rhe(scope);
@@ -600,7 +605,7 @@ fn build_filter(lhs: &AstNode, rhs: &AstNode) -> Result<Evaluator> {
       | v @ Value::Time(_)
       | v @ Value::DaysAndTimeDuration(_)
       | v @ Value::YearsAndMonthsDuration(_)
-      | v @ Value::Context(_) => match rhe(scope) {
+      | v @ Value::Context(_) => match eval_for_item(scope, &v) {
         Value::Boolean(flag) => {
           if flag {
             Value::List(Values::new(vec![v]))
